@@ -1812,7 +1812,9 @@ func (c *cachedDnsForwarder) endUse() {
 		return
 	}
 	c.touch(time.Now())
-	if c.inFlight.Add(-1) == 0 && c.retired.Load() {
+	// Re-read inFlight after observing retired: between the decrement and the load of retired
+	// another user may have begun (retired was still false for it) and still be in flight.
+	if c.inFlight.Add(-1) == 0 && c.retired.Load() && c.inFlight.Load() == 0 {
 		_ = c.closeNow()
 	}
 }
